@@ -230,6 +230,54 @@ def reply_faults(r, spec):
     return fault
 
 
+async def malformed_replies(sh, rig, r, regime, label):
+    """Not loss, not reordering: the reply that arrives has the right verb but a payload too short to
+    decode (a truncated datagram).  Outside the statement's fault list, so the only clause judged is
+    the one that does not depend on it: a call must not RETURN A REPLY that was never delivered for
+    it - it may raise or report failure.  The genuine replies are dropped for the duration."""
+    from geckolib import driver as D
+    from vlib.rig import CLIENT_ID, SPA_ID
+
+    w, p, spa = rig.w, rig.protocol, rig.spa
+    seq = lambda: p.get_and_increment_sequence_counter(False)  # noqa
+    cases = {
+        "channel": (lambda: D.GeckoGetChannelProtocolHandler.request(seq(), parms=spa.sendparms), "CURCH", [b"CHCUR", b"CHCUR\x01"], lambda h: h.channel is not None and h.signal_strength is not None),
+        "version": (lambda: D.GeckoVersionProtocolHandler.request(seq(), parms=spa.sendparms), "AVERS", [b"SVERS", b"SVERS\x00\x01\x02"], lambda h: getattr(h, "en_build", None) is not None and getattr(h, "co_minor", None) is not None),
+        "watercare": (lambda: D.GeckoWatercareProtocolHandler.request(seq(), parms=spa.sendparms), "GETWC", [b"WCGET"], lambda h: h.mode is not None),
+    }
+    for name, (builder, req_verb, bodies, decoded) in cases.items():
+        body = r.choice(bodies)
+
+        def fault(d, req_verb=req_verb, body=body):
+            if d.dir == "s2c" and d.verb in ("CHCUR", "SVERS", "WCGET") and d.src == rig.sim.addr and not getattr(d, "_mine", False):
+                return []
+            if d.dir == "c2s" and d.verb == req_verb:
+                x = w.net.inject(b"<PACKT><SRCCN>" + SPA_ID + b"</SRCCN><DESCN>" + CLIENT_ID + b"</DESCN><DATAS>" + body + b"</DATAS></PACKT>", rig.sim.addr, rig.transport, 0.004)
+            return None
+
+        # the injected datagram goes through _new() and would be offered to this fault function too;
+        # Net.inject sets its fate itself, so it is not - nothing more to do
+        w.net.fault = fault
+        res, exc = None, None
+        try:
+            res = await asyncio.wait_for(p.get(builder, None, 2), 60)
+        except asyncio.TimeoutError:
+            exc = "no return within 60 s"
+        except Exception as e:  # noqa - raising is a way of reporting failure here
+            exc = f"{type(e).__name__}"
+        finally:
+            w.net.fault = None
+        sh.evaluations += 1
+        sh.count("calls_answered_only_by_a_truncated_reply")
+        sh.see("truncated_reply_outcomes", f"{name}:{body[5:].hex() or 'empty'}:{exc or ('None' if res is None else 'returned-handler')}")
+        if exc == "no return within 60 s":
+            sh.violation("C06:caller-never-completes", f"a {name} call answered only by a truncated reply did not return within 60 s", {"kind": name, "reply": body, "regime": regime, "history": label})
+        elif res is not None and not decoded(res):
+            sh.violation("C06:reply-not-delivered", f"get() returned a {type(res).__name__} as answered although the only reply delivered for it was a truncated {body[:5].decode()} that could not be decoded (its fields are unset)", {"kind": name, "reply": body, "regime": regime, "history": label})
+        await rig.quiesce()
+    return True
+
+
 async def level1(sh, rig, r, regime, label):
     from geckolib import driver as D
 
@@ -498,6 +546,8 @@ def shard(sh: Shard, seed, wseed, regime, n1, n2):
                         if not await level1(sh, rig, r, regime, f"{label}.{rep}"):
                             break
                         await rig.quiesce()
+                    if idx % 3 == 0 and rig.protocol is not None and rig.protocol.isopen:
+                        await malformed_replies(sh, rig, r, regime, label)
                 else:
                     await level2(sh, rig, r, regime, label)
 
